@@ -324,9 +324,58 @@ def run_history(ctx, history, label, lite=None, nmax=12):
     return problems, len(delivered_calls)
 
 
+KIND_STATEMENTS = [
+    'SELECT account, year, sum(position) AS s, count(*) AS n GROUP BY 1, 2 PIVOT BY 1, 2',
+    'SELECT year, account, sum(number) AS s GROUP BY 1, 2 PIVOT BY year, account',
+    'SELECT DISTINCT account, currency ORDER BY 1, 2', 'SELECT account, sum(position) AS s GROUP BY account', 'BALANCES AT cost', 'JOURNAL "Assets"',
+    'SELECT * FROM (SELECT account AS a, number AS n)', 'SELECT * FROM #prices', 'SELECT date, account WHERE account ~ "Nope"', 'SELECT account, balance LIMIT 0',
+    'SELECT type, count(*) AS n FROM #entries GROUP BY type PIVOT BY type, n' if False else 'SELECT flag, year, count(*) AS n GROUP BY 1, 2 PIVOT BY 2, 1',
+]
+
+
+def description_protocol_part(ctx):
+    """cursor.description of every kind of statement (PIVOT BY, aggregates, DISTINCT, BALANCES, JOURNAL, sub-queries, wildcard,
+    empty results) is a sequence of 7-item sequences: len, indexing, slicing, repeated iteration, equality between cursors."""
+    from .. import ledgers
+    rng = ctx.rng('description')
+    led = ledgers.gen_ledger(rng, ntxn=8)
+    conn = engine.connection(ledger=led.loaded)
+    for text in KIND_STATEMENTS:
+        try:
+            c1, c2 = conn.execute(text), conn.cursor().execute(text)
+            d1, d2 = c1.description, c2.description
+            rows = c1.fetchall()
+        except Exception as exc:  # noqa: BLE001
+            ctx.violation('c10.description', f'{text}: {type(exc).__name__}: {exc}', {'statement': text})
+            continue
+        ctx.count('obs.description_protocol_statements')
+        ctx.case(('description', text), True)
+        problem = None
+        try:
+            n = len(d1)
+            first = [tuple(x) for x in d1]
+            second = [tuple(x) for x in d1]
+            if first != second or len(first) != n:
+                problem = f'iterating the description twice gives {len(first)} and then {len(second)} items (len {n})'
+            elif [tuple(d1[i]) for i in range(n)] != first or [tuple(x) for x in d1[:]] != first or (n and tuple(d1[-1]) != first[-1]):
+                problem = 'indexing / slicing the description differs from iterating it'
+            elif any(len(x) != 7 or x[2:] != (None,) * 5 for x in first):
+                problem = f'description items are not 7-item sequences (name, type, None x 5): {first[:2]}'
+            elif not (d1 == d2) or [tuple(x) for x in d2] != first:
+                problem = 'the descriptions of the same statement on two cursors differ'
+            elif any(len(r) != n for r in rows):
+                problem = f'rows of {len(rows[0])} values for {n} described columns'
+        except Exception as exc:  # noqa: BLE001
+            problem = f'using the description as a sequence raised {type(exc).__name__}: {exc}'
+        if problem:
+            ctx.violation('c10.description', f'{text}: {problem}', {'statement': text})
+
+
 def run(ctx):
     engine.bq()
     install_contracts()
+    if ctx.shard % 4 == 0:
+        description_protocol_part(ctx)
     lite = sqlite3.connect(':memory:')
     lite.execute('CREATE TABLE t (k INTEGER, s TEXT)')
     lite.executemany('INSERT INTO t VALUES (?, ?)', [(i, f's{i % 3}') for i in range(BIG)])
